@@ -125,7 +125,7 @@ def _parse_nat_list(out):
     body = m.group(1).strip()
     if not body:
         return []
-    return [int(x) for x in re.split(r"[;\s]+", body) if x]
+    return [int(x.replace("%nat", "")) for x in re.split(r"[;\s]+", body) if x]
 
 
 def coq_eval_file(name, text, timeout=600):
@@ -179,6 +179,47 @@ def coq_bool_cases(tag, header, cases, chunk=250, timeout=900, keep=False):
                 except OSError:
                     pass
     return failed, errors
+
+
+def coq_nat_cases(tag, header, cases, chunk=100, timeout=900):
+    """cases: list of Coq terms of type nat. Returns (list of ints or None per case, errors)."""
+    files = []
+    for ci in range(0, len(cases), chunk):
+        part = cases[ci:ci + chunk]
+        name = "%s_%d_n%d" % (tag, os.getpid(), ci // chunk)
+        body = [header, "From Coq Require Import List.", "Import ListNotations.",
+                "Definition xv_cases : list nat := [", ";\n".join("(%s)" % c for c in part), "]%nat.",
+                "Eval vm_compute in xv_cases."]
+        files.append((ci, len(part), name, "\n".join(body)))
+    res = [None] * len(cases)
+    errors = []
+
+    def run(item):
+        ci, n, name, text = item
+        rc, out = coq_eval_file(name, text, timeout)
+        return ci, n, name, rc, out
+
+    with ThreadPoolExecutor(max_workers=NPROC) as ex:
+        for ci, n, name, rc, out in ex.map(run, files):
+            lst = None
+            if rc == 0:
+                m = re.search(r"=\s*\[(.*?)\]\s*:\s*list nat", out, flags=re.S)
+                if m:
+                    lst = [int(x.replace("%nat", "")) for x in re.split(r"[;\s]+", m.group(1).strip()) if x]
+            if lst is None or len(lst) != n:
+                errors.append("chunk %d: coqc rc=%d\n%s" % (ci, rc, out[-3000:]))
+            else:
+                res[ci:ci + n] = lst
+            for ext in (".v", ".vo", ".vok", ".vos", ".glob"):
+                try:
+                    os.remove(os.path.join(COQ, "Cases", name + ext))
+                except OSError:
+                    pass
+            try:
+                os.remove(os.path.join(COQ, "Cases", "." + name + ".aux"))
+            except OSError:
+                pass
+    return res, errors
 
 
 def coq_show(tag, header, term, timeout=120):
